@@ -314,6 +314,8 @@ def run_case(chk, ob, ip, prog, case, props, extra_judge=None):
             hexs = bytes(model_byte(m, b) for b in sent).hex()
             cmd = {'op': 'handle_script', 'client_hex': hexs, 'eof': True, 'mode': case.mode, 'cache': case.cache,
                    'roles': ['primary' if r == 0 else 'replica' for r in case.roles]}
+            if case.stop == 'drop':
+                cmd['drop'] = True
             if prop == 'C18':
                 cmd['probe_b'] = False
                 if key in ('H/transaction-total', 'H/query-total'):
